@@ -287,6 +287,22 @@ void dump_buffer(const char *buffer, std::size_t length, char decimal_point, Res
     }
 }
 
+// snprintf of a double into a stack buffer, falling back to the heap when the output does not fit
+// (for example "%f" of 1e308 needs more than 300 characters)
+inline int format_double(const char* format, int precision, double val, 
+    char* buffer, std::size_t buffer_size, std::string& overflow, const char*& out)
+{
+    int length = snprintf(buffer, buffer_size, format, precision, val);
+    out = buffer;
+    if (length >= 0 && static_cast<std::size_t>(length) >= buffer_size)
+    {
+        overflow.resize(static_cast<std::size_t>(length) + 1);
+        length = snprintf(&overflow[0], overflow.size(), format, precision, val);
+        out = overflow.data();
+    }
+    return length;
+}
+
 template <typename Result>
 bool dtoa_scientific(double val, char decimal_point, Result& result)
 {
@@ -302,9 +318,11 @@ bool dtoa_scientific(double val, char decimal_point, Result& result)
         return true;
     }
 
-    char buffer[100];
+    char stack_buffer[100];
+    std::string heap_buffer;
+    const char* buffer = stack_buffer;
     int precision = std::numeric_limits<double>::digits10;
-    int length = snprintf(buffer, sizeof(buffer), "%1.*e", precision, val);
+    int length = format_double("%1.*e", precision, val, stack_buffer, sizeof(stack_buffer), heap_buffer, buffer);
     if (length < 0)
     {
         return false;
@@ -318,7 +336,7 @@ bool dtoa_scientific(double val, char decimal_point, Result& result)
     if (x != val)
     {
         const int precision2 = std::numeric_limits<double>::max_digits10;
-        length = snprintf(buffer, sizeof(buffer), "%1.*e", precision2, val);
+        length = format_double("%1.*e", precision2, val, stack_buffer, sizeof(stack_buffer), heap_buffer, buffer);
         if (length < 0)
         {
             return false;
@@ -343,9 +361,11 @@ bool dtoa_general(double val, char decimal_point, Result& result, std::false_typ
         return true;
     }
 
-    char buffer[100];
+    char stack_buffer[100];
+    std::string heap_buffer;
+    const char* buffer = stack_buffer;
     int precision = std::numeric_limits<double>::digits10;
-    int length = snprintf(buffer, sizeof(buffer), "%1.*g", precision, val);
+    int length = format_double("%1.*g", precision, val, stack_buffer, sizeof(stack_buffer), heap_buffer, buffer);
     if (length < 0)
     {
         return false;
@@ -359,7 +379,7 @@ bool dtoa_general(double val, char decimal_point, Result& result, std::false_typ
     if (x != val)
     {
         const int precision2 = std::numeric_limits<double>::max_digits10;
-        length = snprintf(buffer, sizeof(buffer), "%1.*g", precision2, val);
+        length = format_double("%1.*g", precision2, val, stack_buffer, sizeof(stack_buffer), heap_buffer, buffer);
         if (length < 0)
         {
             return false;
@@ -422,9 +442,11 @@ bool dtoa_fixed(double val, char decimal_point, Result& result, std::false_type)
         return true;
     }
 
-    char buffer[100];
+    char stack_buffer[100];
+    std::string heap_buffer;
+    const char* buffer = stack_buffer;
     int precision = std::numeric_limits<double>::digits10;
-    int length = snprintf(buffer, sizeof(buffer), "%1.*f", precision, val);
+    int length = format_double("%1.*f", precision, val, stack_buffer, sizeof(stack_buffer), heap_buffer, buffer);
     if (length < 0)
     {
         return false;
@@ -438,7 +460,7 @@ bool dtoa_fixed(double val, char decimal_point, Result& result, std::false_type)
     if (x != val)
     {
         const int precision2 = std::numeric_limits<double>::max_digits10;
-        length = snprintf(buffer, sizeof(buffer), "%1.*f", precision2, val);
+        length = format_double("%1.*f", precision2, val, stack_buffer, sizeof(stack_buffer), heap_buffer, buffer);
         if (length < 0)
         {
             return false;
@@ -523,7 +545,9 @@ public:
     {
         std::size_t count = 0;
 
-        char number_buffer[200];
+        char stack_buffer[200];
+        std::string heap_buffer;
+        const char* number_buffer = stack_buffer;
         int length = 0;
 
         switch (float_format_)
@@ -532,7 +556,7 @@ public:
             {
                 if (precision_ > 0)
                 {
-                    length = snprintf(number_buffer, sizeof(number_buffer), "%1.*f", precision_, val);
+                    length = format_double("%1.*f", precision_, val, stack_buffer, sizeof(stack_buffer), heap_buffer, number_buffer);
                     if (length < 0)
                     {
                         JSONCONS_THROW(json_runtime_error<std::invalid_argument>("write_double failed."));
@@ -552,7 +576,7 @@ public:
             {
                 if (precision_ > 0)
                 {
-                    length = snprintf(number_buffer, sizeof(number_buffer), "%1.*e", precision_, val);
+                    length = format_double("%1.*e", precision_, val, stack_buffer, sizeof(stack_buffer), heap_buffer, number_buffer);
                     if (length < 0)
                     {
                         JSONCONS_THROW(json_runtime_error<std::invalid_argument>("write_double failed."));
@@ -572,7 +596,7 @@ public:
             {
                 if (precision_ > 0)
                 {
-                    length = snprintf(number_buffer, sizeof(number_buffer), "%1.*g", precision_, val);
+                    length = format_double("%1.*g", precision_, val, stack_buffer, sizeof(stack_buffer), heap_buffer, number_buffer);
                     if (length < 0)
                     {
                         JSONCONS_THROW(json_runtime_error<std::invalid_argument>("write_double failed."));
